@@ -11,6 +11,7 @@ import (
 	"testing"
 
 	mocker "github.com/tencent/goom"
+	"github.com/tencent/goom/arg"
 	"github.com/tencent/goom/zverif/corpus"
 	"github.com/tencent/goom/zverif/vkit"
 	"pgregory.net/rapid"
@@ -52,10 +53,20 @@ type histCase struct {
 	Ops []vkit.Op `json:"ops"`
 }
 
-// targets: 0..2 functions, 3..4 methods, 5..6 interface methods, 7 variable
-const nT = 8
+// targets: 0..2 functions, 3..4 methods, 5..6 interface methods, 7 variable, 8 a function addressed by name only,
+// 9 an unexported method addressed by name only
+const nT = 10
 
-var tnames = []string{"fA", "fB", "fC", "(*M).A", "(*M).B", "IF.P", "IF.Q", "var gv"}
+var tnames = []string{"fA", "fB", "fC", "(*M).A", "(*M).B", "IF.P", "IF.Q", "var gv", "fE (by name)", "(*M).c (by name)"}
+
+//go:noinline
+func fE(x int) int { return x*10 + 6 }
+
+//go:noinline
+func (m *M) c(x int) int { return x*10 + 7 }
+
+var asFunc = func(x int) (r int) { vkit.Sink(2); return }
+var asMeth = func(m *M, x int) (r int) { vkit.Sink(3); return }
 
 type clause struct {
 	x   int
@@ -80,7 +91,7 @@ func guard(f func()) (pv interface{}) {
 }
 
 func orig(t, x int) int {
-	return x*10 + []int{1, 2, 3, 4, 5}[t]
+	return x*10 + map[int]int{0: 1, 1: 2, 2: 3, 3: 4, 4: 5, 8: 6, 9: 7}[t]
 }
 
 func callT(t, x int) (r int, pv interface{}) {
@@ -100,6 +111,10 @@ func callT(t, x int) (r int, pv interface{}) {
 			r = ifv.P(x)
 		case 6:
 			r = ifv.Q(x)
+		case 8:
+			r = fE(x)
+		case 9:
+			r = (&M{k: 1}).c(x)
 		}
 	})
 	return
@@ -118,7 +133,9 @@ func em(b *mocker.Builder, t int) mocker.ExportedMocker {
 		return m
 	}
 	m := emFresh(b, t)
-	keptEm[t] = m
+	if t <= 4 {
+		keptEm[t] = m
+	}
 	return m
 }
 
@@ -136,9 +153,24 @@ func emFresh(b *mocker.Builder, t int) mocker.ExportedMocker {
 		return b.Struct(&M{}).Method("B")
 	case 5:
 		return b.Interface(&ifv).Method("P").As(asP)
+	case 8:
+		return b.ExportFunc("fE").As(asFunc)
+	case 9:
+		return b.Struct(&M{}).ExportMethod("c").As(asMeth)
 	default:
 		return b.Interface(&ifv).Method("Q").As(asP)
 	}
+}
+
+// canceller returns the handle whose Cancel undoes target t
+func canceller(b *mocker.Builder, t int) mocker.Mocker {
+	switch t {
+	case 8:
+		return b.ExportFunc("fE")
+	case 9:
+		return b.Struct(&M{}).ExportMethod("c")
+	}
+	return em(b, t)
 }
 
 func applyCb(b *mocker.Builder, t int, c int) {
@@ -149,6 +181,10 @@ func applyCb(b *mocker.Builder, t int, c int) {
 		em(b, t).Apply(func(m *M, x int) int { return c })
 	case t == 5:
 		b.Interface(&ifv).Method("P").Apply(func(ctx *mocker.IContext, x int) int { return c })
+	case t == 8:
+		b.ExportFunc("fE").Apply(func(x int) int { return c })
+	case t == 9:
+		b.Struct(&M{}).ExportMethod("c").Apply(func(m *M, x int) int { return c })
 	default:
 		b.Interface(&ifv).Method("Q").Apply(func(ctx *mocker.IContext, x int) int { return c })
 	}
@@ -180,14 +216,17 @@ func runHist(ci interface{}, s *vkit.Stats) error {
 	}
 	checkCall := func(step, t, x int) error {
 		ts := st[t]
-		if t >= 5 && !ifMocked {
+		if (t == 5 || t == 6) && !ifMocked {
 			return nil // nil interface variable
+		}
+		if t == 7 {
+			return nil
 		}
 		got, pv := callT(t, x)
 		where := fmt.Sprintf("step %d: call %s(%d)", step, tnames[t], x)
 		switch ts.kind {
 		case "":
-			if t >= 5 {
+			if t == 5 || t == 6 {
 				if pv == nil || !strings.Contains(fmt.Sprint(pv), "method not implements") {
 					return fmt.Errorf("%s: method is not mocked (variable is): got %d / panic %v, want the 'method not implements' panic", where, got, pv)
 				}
@@ -259,7 +298,7 @@ func runHist(ci interface{}, s *vkit.Stats) error {
 			}
 			pv = guard(func() { applyCb(b, t, v) })
 			*ts = tstate{kind: "cb", cb: v}
-			if t >= 5 {
+			if t == 5 || t == 6 {
 				ifMocked = true
 			}
 			note(t, "cb")
@@ -294,7 +333,7 @@ func runHist(ci interface{}, s *vkit.Stats) error {
 			} else {
 				*ts = tstate{kind: "stub", def: []int{v}, hasDef: true}
 			}
-			if t >= 5 {
+			if t == 5 || t == 6 {
 				ifMocked = true
 			}
 			note(t, "stub")
@@ -303,13 +342,21 @@ func runHist(ci interface{}, s *vkit.Stats) error {
 			if t == 7 {
 				continue
 			}
-			pv = guard(func() { em(b, t).When(x).Return(v) })
+			pv = guard(func() {
+				if t == 9 {
+					// an unexported method exported with As(func(recv, args...)) is a plain function for the matcher: the
+					// receiver is its first parameter
+					em(b, t).When(arg.Any(), x).Return(v)
+				} else {
+					em(b, t).When(x).Return(v)
+				}
+			})
 			if ts.kind != "stub" {
 				*ts = tstate{kind: "stub"}
 			}
 			ts.clauses = append(ts.clauses, &clause{x: x, seq: []int{v}})
 			ts.afterWhen = true
-			if t >= 5 {
+			if t == 5 || t == 6 {
 				ifMocked = true
 			}
 			note(t, "stub")
@@ -321,7 +368,7 @@ func runHist(ci interface{}, s *vkit.Stats) error {
 				if varMocked {
 					varMocked, varCur = false, varOrig
 				}
-			case t >= 5:
+			case t == 5 || t == 6:
 				pv = guard(func() { em(b, t).Cancel() })
 				if ifMocked && (st[5].kind != "" || st[6].kind != "") && st[t].kind != "" {
 					// cancelling a mocked interface method puts back the whole variable
@@ -333,7 +380,7 @@ func runHist(ci interface{}, s *vkit.Stats) error {
 					s.Class("cancel-of-unapplied-interface-method")
 				}
 			default:
-				pv = guard(func() { em(b, t).Cancel() })
+				pv = guard(func() { canceller(b, t).Cancel() })
 				*ts = tstate{}
 				lastKind[t] = ""
 			}
@@ -374,7 +421,7 @@ func runHist(ci interface{}, s *vkit.Stats) error {
 		}
 		// after every instruction, every target behaves according to its most recent instruction
 		if op.K != "call" {
-			for tt := 0; tt < 7; tt++ {
+			for _, tt := range []int{0, 1, 2, 3, 4, 5, 6, 8, 9} {
 				if err := checkCall(step, tt, (x+tt)%4); err != nil {
 					return fmt.Errorf("after %s on %s: %v", op.K, tnames[t], err)
 				}
@@ -413,7 +460,7 @@ func TestVerifC12(t *testing.T) {
 			ops := rapid.SliceOfN(opGen, 2, 20).Draw(rt, "ops")
 			// concentrate a history on two targets so that alternations happen
 			// pairs that belong together get extra weight: the two methods of the interface variable, the two methods of M
-			pairs := [][2]int64{{5, 6}, {5, 6}, {3, 4}, {0, 1}, {0, 7}, {2, 5}, {6, 3}}
+			pairs := [][2]int64{{5, 6}, {5, 6}, {3, 4}, {0, 1}, {0, 7}, {2, 5}, {6, 3}, {8, 9}, {8, 0}, {9, 3}}
 			t0 := int64(rapid.IntRange(0, nT-1).Draw(rt, "t0"))
 			t1 := int64(rapid.IntRange(0, nT-1).Draw(rt, "t1"))
 			if rapid.Bool().Draw(rt, "paired") {
